@@ -1211,3 +1211,67 @@ def rule_position(text):
         a, b, new = hit
         apps.append(_app("R-position", text, a, b, new, "definition of Iterator::position over a Vec: the first index whose element satisfies the predicate"))
         text = text[:a] + new + text[b:]
+
+
+def _method_to_fn(text, name, fname, rname, why, nargs=None):
+    """`RECV.name(ARGS)` -> `fname(RECV, ARGS)` (receiver and arguments verbatim), innermost first"""
+    apps = []
+    while True:
+        m = mask(text)
+        calls = _method_calls(text, m, name)
+        if not calls:
+            return text, apps
+        dot, op, cl = calls[0]          # last occurrence in the text first: inner calls of an argument come before the outer one
+        a = _receiver_start(m, dot)
+        recv = text[a:dot].strip()
+        args = text[op + 1:cl].strip()
+        new = "%s(%s%s)" % (fname, recv, (", " + args) if args else "")
+        apps.append(_app(rname, text, a, cl + 1, new, why))
+        text = text[:a] + new + text[cl + 1:]
+
+
+def rule_ttlmisc(text):
+    """ttl-path one-offs: Option::flatten / or_else, u64::max, saturating arithmetic"""
+    apps = []
+    text, a = _option_closure_free(text, "flatten", "R-oflatten", lambda e: "(match %s { Some(x_) => x_, None => None })" % e, "definition of Option::flatten")
+    apps += a
+    # E.or_else(|| X)
+    while True:
+        m = mask(text)
+        hit = None
+        for dot, op, cl in _method_calls(text, m, "or_else"):
+            parts = _closure_parts(text[op + 1:cl])
+            if not parts or parts[0] != "":
+                continue
+            a0 = _receiver_start(m, dot)
+            e = text[a0:dot].strip()
+            new = "(match %s { Some(v_) => Some(v_), None => %s })" % (e, parts[1])
+            hit = (a0, cl + 1, new)
+            break
+        if not hit:
+            break
+        apps.append(_app("R-oorelse", text, hit[0], hit[1], hit[2], "definition of Option::or_else with a closure without parameters"))
+        text = text[:hit[0]] + hit[2] + text[hit[1]:]
+    for name, fname, why in (("saturating_mul", "sat_mul_u64", "definition of u64::saturating_mul (verified shim)"),
+                             ("saturating_add", "sat_add_u64", "definition of u64::saturating_add (verified shim)"),
+                             ("max", "max_u64", "definition of Ord::max on u64 (verified shim)")):
+        text, a = _method_to_fn(text, name, fname, "R-arith", why)
+        apps += a
+    return text, apps
+
+
+def _option_closure_free(text, method, rname, build, why):
+    apps = []
+    while True:
+        m = mask(text)
+        hit = None
+        for dot, op, cl in _method_calls(text, m, method):
+            if text[op + 1:cl].strip():
+                continue
+            a0 = _receiver_start(m, dot)
+            hit = (a0, cl + 1, build(text[a0:dot].strip()))
+            break
+        if not hit:
+            return text, apps
+        apps.append(_app(rname, text, hit[0], hit[1], hit[2], why))
+        text = text[:hit[0]] + hit[2] + text[hit[1]:]
